@@ -146,9 +146,17 @@ fn sign1_case(g: &mut Gen, ctx: &mut Ctx) -> CaseResult {
 }
 
 fn sign_case(g: &mut Gen, ctx: &mut Ctx) -> CaseResult {
-    let body = gen_prot(g, ctx)?;
     let nsig = 1 + g.below(4);
-    let signers: Vec<Prot> = (0..nsig).map(|_| gen_prot(g, ctx)).collect::<Result<_, _>>()?;
+    let (body, signers): (Prot, Vec<Prot>) = if g.ratio(1, 4) {
+        // body and one signer carry the same header content in different bytes
+        let (b, s) = gen_prot_pair_same_content(g, ctx)?;
+        let mut v: Vec<Prot> = (1..nsig).map(|_| gen_prot(g, ctx)).collect::<Result<_, _>>()?;
+        let at = g.below(v.len() + 1);
+        v.insert(at, s);
+        (b, v)
+    } else {
+        (gen_prot(g, ctx)?, (0..nsig).map(|_| gen_prot(g, ctx)).collect::<Result<_, _>>()?)
+    };
     let aad = gen_class_bytes(g);
     let payload = gen_class_bytes(g);
     let mode = g.below(3);
@@ -240,8 +248,12 @@ fn sign_case(g: &mut Gen, ctx: &mut Ctx) -> CaseResult {
 }
 
 fn general_case(g: &mut Gen, ctx: &mut Ctx) -> CaseResult {
-    let body = gen_prot(g, ctx)?;
-    let sign = if g.bool() { Some(gen_prot(g, ctx)?) } else { None };
+    let (body, sign) = if g.ratio(1, 4) {
+        let (b, s) = gen_prot_pair_same_content(g, ctx)?;
+        (b, Some(s))
+    } else {
+        (gen_prot(g, ctx)?, if g.bool() { Some(gen_prot(g, ctx)?) } else { None })
+    };
     let aad = gen_class_bytes(g);
     let payload = gen_class_bytes(g);
     let ci = g.below(3);
